@@ -106,6 +106,20 @@ def _consts_of(zs):
     return list(out.values())
 
 
+def _has_quantifier(z, limit=4000):
+    seen, todo = set(), [z]
+    while todo and len(seen) < limit:
+        x = todo.pop()
+        if x.get_id() in seen:
+            continue
+        seen.add(x.get_id())
+        if z3.is_quantifier(x):
+            return True
+        if z3.is_app(x):
+            todo.extend(x.children())
+    return bool(todo)
+
+
 def _skolemize(b, mark, formulas):
     """Constants created (after `mark`) while evaluating something for the arbitrary position/key b are values that
     depend on b: replace each such constant c by F_c(b).  Returns the rewritten formulas."""
@@ -662,8 +676,9 @@ class Executor:
             return False
         sol = z3.Solver()
         sol.set("timeout", ms)
+        sol.set("rlimit", 400000)       # deterministic resource bound: the wall-clock timeout alone is not always honoured
         for h in st.pc:
-            if not z3.is_quantifier(h):
+            if not z3.is_quantifier(h) and not _has_quantifier(h):
                 sol.add(h)
         sol.add(z3.Not(zs))
         try:
